@@ -1,0 +1,352 @@
+//! Verification hooks. Compiled only with `--cfg xs_verif`; inert until a harness
+//! switches the individual facilities on at run time.
+//!
+//! * event log: `emit` appends one JSON object per linearisation point, the sequence
+//!   number is taken under the log mutex
+//! * gates: `point` parks a named actor until a scheduler releases it
+//! * virtual clock: ids and TTL expiry read `now_ms` instead of the wall clock
+//! * channel capacities of `Store::read`
+use std::collections::{HashMap, HashSet};
+use std::sync::{Condvar, Mutex, OnceLock};
+use std::time::{Duration, Instant};
+
+use scru128::Scru128Id;
+use serde_json::{json, Value};
+
+#[derive(Clone, Debug, PartialEq)]
+pub enum ActorState {
+    Running,
+    Parked(String),
+    Waiting(String),
+    Finished,
+}
+
+#[derive(Default)]
+struct State {
+    log_on: bool,
+    log: Vec<Value>,
+    seq: u64,
+    gate_prefixes: Vec<String>,
+    actors: HashMap<String, (ActorState, u64)>,
+    released: HashSet<String>,
+    readers: u64,
+    clock: Option<u64>,
+    idgen: Option<scru128::Scru128Generator>,
+    broadcast_cap: Option<usize>,
+    delivery_cap: Option<usize>,
+}
+
+struct Ctl {
+    st: Mutex<State>,
+    cv: Condvar,
+}
+
+fn ctl() -> &'static Ctl {
+    static C: OnceLock<Ctl> = OnceLock::new();
+    C.get_or_init(|| Ctl {
+        st: Mutex::new(State::default()),
+        cv: Condvar::new(),
+    })
+}
+
+thread_local! {
+    static ACTOR: std::cell::RefCell<Option<String>> = const { std::cell::RefCell::new(None) };
+}
+
+/// name the calling thread (writers are named by the harness)
+pub fn set_actor(a: Option<&str>) {
+    ACTOR.with(|x| *x.borrow_mut() = a.map(|s| s.to_string()));
+}
+
+pub fn actor() -> Option<String> {
+    ACTOR.with(|x| x.borrow().clone())
+}
+
+// ---------------------------------------------------------------- event log
+
+pub fn set_log(on: bool) {
+    ctl().st.lock().unwrap().log_on = on;
+}
+
+pub fn take_log() -> Vec<Value> {
+    std::mem::take(&mut ctl().st.lock().unwrap().log)
+}
+
+fn push(st: &mut State, actor: Option<&str>, ev: &str, mut args: Value) {
+    if !st.log_on {
+        return;
+    }
+    st.seq += 1;
+    if !args.is_object() {
+        args = json!({});
+    }
+    let o = args.as_object_mut().unwrap();
+    o.insert("seq".into(), json!(st.seq));
+    o.insert("ev".into(), json!(ev));
+    if let Some(a) = actor {
+        o.insert("actor".into(), json!(a));
+    }
+    st.log.push(args);
+}
+
+pub fn emit(actor: Option<&str>, ev: &str, args: Value) {
+    let mut st = ctl().st.lock().unwrap();
+    push(&mut st, actor, ev, args);
+}
+
+pub fn logging() -> bool {
+    ctl().st.lock().unwrap().log_on
+}
+
+// ---------------------------------------------------------------- clock, ids, capacities
+
+pub fn set_clock(ms: Option<u64>) {
+    let mut st = ctl().st.lock().unwrap();
+    st.clock = ms;
+    if ms.is_some() && st.idgen.is_none() {
+        st.idgen = Some(scru128::Scru128Generator::new());
+    }
+}
+
+pub fn advance_clock(ms: u64) {
+    let mut st = ctl().st.lock().unwrap();
+    if let Some(c) = st.clock {
+        st.clock = Some(c + ms);
+    }
+}
+
+pub fn now_ms() -> Option<u64> {
+    ctl().st.lock().unwrap().clock
+}
+
+/// next id under the virtual clock (same generator algorithm as `scru128::new`)
+pub fn next_id() -> Option<Scru128Id> {
+    let mut st = ctl().st.lock().unwrap();
+    let now = st.clock?;
+    let g = st.idgen.as_mut()?;
+    Some(g.generate_or_reset_core(now, 10_000))
+}
+
+pub fn set_caps(broadcast: Option<usize>, delivery: Option<usize>) {
+    let mut st = ctl().st.lock().unwrap();
+    st.broadcast_cap = broadcast;
+    st.delivery_cap = delivery;
+}
+
+pub fn broadcast_cap(default: usize) -> usize {
+    ctl().st.lock().unwrap().broadcast_cap.unwrap_or(default)
+}
+
+pub fn delivery_cap(default: usize) -> usize {
+    ctl().st.lock().unwrap().delivery_cap.unwrap_or(default)
+}
+
+// ---------------------------------------------------------------- gates, xs side
+
+/// actors whose name starts with one of these prefixes park at their points
+pub fn set_gates(prefixes: &[&str]) {
+    let c = ctl();
+    let mut st = c.st.lock().unwrap();
+    st.gate_prefixes = prefixes.iter().map(|s| s.to_string()).collect();
+    st.released.clear();
+    c.cv.notify_all();
+}
+
+fn gated(st: &State, actor: &str) -> bool {
+    st.gate_prefixes
+        .iter()
+        .any(|p| actor.starts_with(p.as_str()))
+}
+
+/// a fresh reader name, if anything is switched on
+pub fn next_reader() -> Option<String> {
+    let mut st = ctl().st.lock().unwrap();
+    if !st.log_on && st.gate_prefixes.is_empty() {
+        return None;
+    }
+    st.readers += 1;
+    Some(format!("r{}", st.readers))
+}
+
+/// record the event, then park the actor until the scheduler releases it
+pub fn point(actor: Option<&str>, ev: &str, args: Value) {
+    let c = ctl();
+    let mut st = c.st.lock().unwrap();
+    push(&mut st, actor, ev, args);
+    let Some(actor) = actor else { return };
+    if !gated(&st, actor) {
+        return;
+    }
+    st.seq += 1;
+    let seq = st.seq;
+    st.actors
+        .insert(actor.to_string(), (ActorState::Parked(ev.to_string()), seq));
+    c.cv.notify_all();
+    while !st.released.contains(actor) && gated(&st, actor) {
+        st = c.cv.wait(st).unwrap();
+    }
+    st.released.remove(actor);
+    st.seq += 1;
+    let seq = st.seq;
+    st.actors
+        .insert(actor.to_string(), (ActorState::Running, seq));
+    c.cv.notify_all();
+}
+
+/// announce an operation that can block outside a gate
+pub fn waiting(actor: Option<&str>, what: &str) {
+    let Some(actor) = actor else { return };
+    let c = ctl();
+    let mut st = c.st.lock().unwrap();
+    if !gated(&st, actor) {
+        return;
+    }
+    st.seq += 1;
+    let seq = st.seq;
+    st.actors.insert(
+        actor.to_string(),
+        (ActorState::Waiting(what.to_string()), seq),
+    );
+    c.cv.notify_all();
+}
+
+pub fn resumed(actor: Option<&str>) {
+    let Some(actor) = actor else { return };
+    let c = ctl();
+    let mut st = c.st.lock().unwrap();
+    if !gated(&st, actor) {
+        return;
+    }
+    st.seq += 1;
+    let seq = st.seq;
+    st.actors
+        .insert(actor.to_string(), (ActorState::Running, seq));
+    c.cv.notify_all();
+}
+
+pub fn finish(actor: Option<&str>) {
+    let Some(actor) = actor else { return };
+    let c = ctl();
+    let mut st = c.st.lock().unwrap();
+    st.seq += 1;
+    let seq = st.seq;
+    st.actors
+        .insert(actor.to_string(), (ActorState::Finished, seq));
+    c.cv.notify_all();
+}
+
+// ---------------------------------------------------------------- gates, harness side
+
+pub fn actors() -> Vec<(String, ActorState)> {
+    let st = ctl().st.lock().unwrap();
+    let mut v: Vec<_> = st
+        .actors
+        .iter()
+        .map(|(k, (s, _))| (k.clone(), s.clone()))
+        .collect();
+    v.sort_by(|a, b| a.0.cmp(&b.0));
+    v
+}
+
+pub fn forget_actors() {
+    let mut st = ctl().st.lock().unwrap();
+    st.actors.clear();
+    st.released.clear();
+}
+
+pub fn state_of(actor: &str) -> Option<ActorState> {
+    ctl()
+        .st
+        .lock()
+        .unwrap()
+        .actors
+        .get(actor)
+        .map(|x| x.0.clone())
+}
+
+/// wait until `actor` is not running (parked, waiting or finished)
+pub fn settle(actor: &str, timeout: Duration) -> Result<ActorState, String> {
+    let c = ctl();
+    let deadline = Instant::now() + timeout;
+    let mut st = c.st.lock().unwrap();
+    loop {
+        match st.actors.get(actor) {
+            Some((ActorState::Running, _)) | None => {}
+            Some((s, _)) => return Ok(s.clone()),
+        }
+        let now = Instant::now();
+        if now >= deadline {
+            return Err(format!(
+                "{actor} did not settle: {:?}",
+                st.actors.get(actor).map(|x| x.0.clone())
+            ));
+        }
+        st = c.cv.wait_timeout(st, deadline - now).unwrap().0;
+    }
+}
+
+/// wait until `actor` has left the state it is in now (used for Waiting actors)
+pub fn wait_change(actor: &str, timeout: Duration) -> Result<ActorState, String> {
+    let c = ctl();
+    let deadline = Instant::now() + timeout;
+    let mut st = c.st.lock().unwrap();
+    let seq0 = st.actors.get(actor).map(|x| x.1);
+    loop {
+        let cur = st.actors.get(actor).map(|x| x.1);
+        if cur != seq0 {
+            drop(st);
+            return settle(actor, deadline.saturating_duration_since(Instant::now()));
+        }
+        let now = Instant::now();
+        if now >= deadline {
+            return Err(format!("{actor} unchanged"));
+        }
+        st = c.cv.wait_timeout(st, deadline - now).unwrap().0;
+    }
+}
+
+/// release a parked actor and wait until it parks again, blocks or finishes
+pub fn step(actor: &str, timeout: Duration) -> Result<ActorState, String> {
+    let c = ctl();
+    {
+        let mut st = c.st.lock().unwrap();
+        match st.actors.get(actor) {
+            Some((ActorState::Parked(_), _)) => {}
+            other => {
+                return Err(format!(
+                    "{actor} is not parked: {:?}",
+                    other.map(|x| x.0.clone())
+                ))
+            }
+        }
+        st.released.insert(actor.to_string());
+        let seq = st.seq + 1;
+        st.seq = seq;
+        st.actors
+            .insert(actor.to_string(), (ActorState::Running, seq));
+        c.cv.notify_all();
+    }
+    settle(actor, timeout)
+}
+
+// ---------------------------------------------------------------- event arguments
+
+pub fn frame_args(frame: &crate::store::Frame) -> Value {
+    json!({
+        "id": frame.id.to_string(),
+        "ctx": frame.context_id.to_string(),
+        "topic": frame.topic,
+        "ttl": frame.ttl.as_ref().map(|t| t.to_query()),
+    })
+}
+
+pub fn read_args(options: &crate::store::ReadOptions, follow: bool) -> Value {
+    json!({
+        "follow": follow,
+        "heartbeat": matches!(options.follow, crate::store::FollowOption::WithHeartbeat(_)),
+        "tail": options.tail,
+        "last": options.last_id.map(|i| i.to_string()),
+        "limit": options.limit,
+        "ctx": options.context_id.map(|i| i.to_string()),
+    })
+}
